@@ -86,6 +86,14 @@ def gen_tree(rng, rich=True):
     add("relinks/fl", "link", target="f.txt")
     add("relinks/dg", "link", target="../lib/later.so")
     add("relinks/ab", "link", target="/usr/lib/vt-nx/later.so")
+    # other files / symlinks carrying the names of top-level files (installed over them in the directed scenarios)
+    add("alt", "dir")
+    for n in ("README", "conf", "vt.h"):
+        add("alt/" + n, "file")
+    add("sym", "dir")
+    add("sym/README", "link", target="../ChangeLog")
+    add("sym/conf", "link", target="not-there-either")
+    add("sym/vt.h", "link", target="/usr/lib/vt-nx/vt.h")
     add("over", "dir")
     add("over/fl", "file")
     add("over/dg", "file")
@@ -305,7 +313,7 @@ def _relpath(target, start_dir):
 
 
 OVER_VARIANTS = ["dosym-then-file", "tree-twice", "dosym-then-file", "links-twice", "dosym-then-file", "tree-then-files",
-                 "dosym-then-file"]
+                 "dosym-then-file", "hardlink-then-file", "file-then-symlink", "hardlink-then-file", "file-then-symlink"]
 
 
 def overwrite_script(rng, eapi, variant=None):
@@ -324,7 +332,29 @@ def overwrite_script(rng, eapi, variant=None):
     variants = ["dosym-then-file"] * 5
     if e >= 4:
         variants += ["tree-twice", "links-twice", "tree-then-files", "tree-twice", "tree-then-files"]
+    if e <= 3:
+        variants += ["hardlink-then-file"] * 2
+    else:
+        variants += ["file-then-symlink"] * 2
     v = variant if variant in variants else rng.choice(variants)
+    if v == "hardlink-then-file":
+        # EAPI <= 3: two names of one inode, then a different file is installed under one of them: the other name
+        # must keep the old content
+        n = rng.choice(["README", "conf", "vt.h"])
+        first = [rq("doins", [n]), rq("dohard", ["/usr/share/vt/" + n, "/usr/share/vt/hard-" + n])]
+        if rng.random() < 0.5:
+            return v, first + [rq("doins", ["alt/" + n])]
+        # ... or under the dohard name: a copy of the other file named like the link is in alt/ only for the first form,
+        # so install into a directory where the link carries the source's name
+        return v, [rq("doins", [n]), rq("dohard", ["/usr/share/vt/" + n, "/usr/share/vt/alt/" + n]),
+                   rq("doins", ["alt/" + n], insdesttree="/usr/share/vt/alt")]
+    if v == "file-then-symlink":
+        # EAPI >= 4: a regular file is replaced by a symlink of the same name from the source tree
+        n = rng.choice(["README", "conf", "vt.h"])
+        if rng.random() < 0.5:
+            return v, [rq("doins", [n]), rq("doins", ["sym/" + n])]
+        return v, [rq("doins", ["-r", "alt"]),
+                   rq("doins", ["sym/README", "sym/conf", "sym/vt.h"], insdesttree="/usr/share/vt/alt")]
     if v == "tree-twice":
         # the second run installs files, a live, a relative dangling and an absolute dangling symlink over themselves
         return v, [rq("doins", ["-r", "relinks"]), rq("doins", ["-r", "relinks"])]
